@@ -19,6 +19,7 @@ RULE = (
     "independent codec; every yielded block copied at yield time and compared with D[p_k:p_k+len_k], "
     "p_{k+1}=p_k+len_k-skipback, concatenation after dropping skipback = D[start:start+nsamps]; ValueError only "
     "before the first yield, required when skipback>=g, forbidden when 2*skipback<=g. "
+    "Stream file names do not sort in time order (9,10,11 / z,y,x); header forms vary; plans may be abandoned mid-way before the next plan on the same reader. "
     "Non-trivial = an accepted plan yielding >=2 blocks; distinct by canonical case JSON."
 )
 ASSUMPTIONS = [
